@@ -260,14 +260,50 @@ type vfStore struct {
 	db      map[string]*vfRow
 	q       map[string]int
 	version int64
+	nfSeq   int // absent rows are reported in the shapes of vfShapedNF in rotation
 }
+
+// vfIsNF answers errors.Is for the configured not-found error without wrapping it.
+type vfIsNF struct{ what string }
+
+func (e *vfIsNF) Error() string        { return "verif: repository: " + e.what + " does not exist" }
+func (e *vfIsNF) Is(target error) bool { return target == vfErrNF }
+
+var vfNFShapeNames = []string{"bare", "wrap1", "wrap2", "join", "is-method"}
+
+// vfShapedNF: the ways in which a query closure can say "no such row" to a cache that was
+// configured with vfErrNF (go-zero classifies with errors.Is): the error itself, wrapped with
+// %w once and twice, joined with another error, through an Is method. The oracle of every
+// family is the same for all of them (the configured error comes back, the marker is cached).
+func vfShapedNF(n int, what string) error {
+	switch n % 5 {
+	case 1:
+		return fmt.Errorf("find %s: %w", what, vfErrNF)
+	case 2:
+		return fmt.Errorf("repository: %w", fmt.Errorf("find %s: %w", what, vfErrNF))
+	case 3:
+		return errors.Join(errors.New("verif: audit log unavailable"), vfErrNF)
+	case 4:
+		return &vfIsNF{what}
+	}
+	return vfErrNF
+}
+
+// vfCurCase is the case in progress (observation counters of the stores' query closures).
+var vfCurCase *kit.Case
 
 func (s *vfStore) query(key string) func(v any) error {
 	return func(v any) error {
 		s.q[key]++
 		r := s.db[key]
 		if r == nil {
-			return vfErrNF
+			s.nfSeq++
+			n := s.nfSeq
+			if vfCurCase != nil {
+				n += vfCurCase.Index // the rotation starts at another shape in every case
+				vfCurCase.Obs("w_absent_row_queries_shape_"+vfNFShapeNames[n%5], 1)
+			}
+			return vfShapedNF(n, key)
 		}
 		*v.(*vfRow) = *r
 		return nil
@@ -978,6 +1014,8 @@ func TestVerifC06W(t *testing.T) {
 				c.Inconclusive("an earlier case of this process hit its watchdog")
 				return
 			}
+			vfCurCase = c
+			defer func() { vfCurCase = nil }()
 			fn(c)
 		}
 	}
